@@ -4,7 +4,7 @@ package http3
 //vx:entry Harness_C19_trailers
 //vx:param all maxdepth=3000
 //vx:param quick fields=2 freelen=1 values=6
-//vx:param thorough fields=2 freelen=2 values=8
+//vx:param thorough fields=2 freelen=1 values=9
 //vx:reach Harness_C19_trailers C19.tr.accepted C19.tr.rejected C19.tr.free-name C19.tr.two-values
 
 import (
